@@ -166,6 +166,8 @@ class DispatchHarness(Harness):
         return len(s)
 
     def fake_open(path, mode="r", encoding=None):
+      if "w" in mode or "a" in mode or "x" in mode:
+        rec.written.append(path)      # opening for writing creates or truncates the file, whether or not anything is written
       return FakeFile(path, mode)
 
     class FakePath:
